@@ -10,7 +10,7 @@ LEVEL = "exploration"
 RULE = ("cases are well-typed programs of the core statement language built by a type-directed Hypothesis generator "
         "(<= 80 statements, nesting <= 5: if / else-if / else, while, from..to/through with literal, variable or compound-expression step and "
         "anonymous / named / colliding counter, break, continue, return, functions with parameters, recursion through self(), "
-        "int/bool/str expressions, list indexing, division) plus an enumerated family of small control-flow skeletons; the "
+        "int/bool/str expressions, list indexing, division) plus an enumerated family of small control-flow skeletons, a naming family (every word of the grammar inside a name) and `&&` / `||` between an effectful call and a boolean literal on either side in six positions; the "
         "oracle is an independent reference interpreter (lexical scoping, checked i32 arithmetic): stdout must equal the "
         "model's output exactly and the exit status must be 0, or - where the model prescribes a failure (assert, zero "
         "divisor, index range, overflow) - stdout must stop exactly there and the exit status be non-zero. Non-trivial = a "
@@ -356,9 +356,35 @@ def naming_cases():
     return out
 
 
+def logic_literal_cases():
+    """`&&` / `||` between a call WITH AN EFFECT and a boolean literal, the literal on either side, in every position a complete
+    value can stand: the call runs unless the LEFT operand already decides (the literal on the right never spares the call)"""
+    V = lambda n: ("var", n)
+    B = lambda b: ("lit", "bool", b)
+    S = lambda t: ("lit", "str", t)
+    out = []
+    for ret in (True, False):
+        tick = ("decl", "tick", None, ("fn", [("tag", "str")], "bool", [("decl", "n", None, ("bin", "+", V("n"), I(1)), ("modify",)), ("print", ("bin", "+", S("tick "), V("tag"))), ("return", B(ret))]), ())
+        call = lambda t: ("call", V("tick"), [S(t)])
+        forms = {"call-and-false": ("bin", "&&", call("a"), B(False)), "call-or-true": ("bin", "||", call("a"), B(True)), "false-and-call": ("bin", "&&", B(False), call("a")),
+                 "true-or-call": ("bin", "||", B(True), call("a")), "call-and-true": ("bin", "&&", call("a"), B(True)), "call-or-false": ("bin", "||", call("a"), B(False)),
+                 "not-call-and-false": ("not", ("bin", "&&", call("a"), B(False))), "call-and-not-true": ("bin", "&&", call("a"), ("not", B(True))),
+                 "two-calls-and-false": ("bin", "&&", ("bin", "&&", call("a"), call("b")), B(False))}
+        for fname, e in forms.items():
+            places = {"if": [("if", e, [("print", S("then"))], [("print", S("else"))])],
+                      "while": [("decl", "go", None, I(0), ()), ("while", ("bin", "&&", ("bin", "<", V("go"), I(2)), e), [("decl", "go", None, ("bin", "+", V("go"), I(1)), ())])],
+                      "assign": [("decl", "r", None, e, ()), ("print", V("r"))], "print": [("print", e)],
+                      "return": [("decl", "w", None, ("fn", [], "bool", [("return", e)]), ()), ("print", ("call", V("w"), []))],
+                      "argument": [("decl", "idb", None, ("fn", [("b", "bool")], "bool", [("return", V("b"))]), ()), ("print", ("call", V("idb"), [e]))]}
+            for pname, st_ in places.items():
+                stmts = [("decl", "n", None, I(0), ()), tick] + st_ + [("print", ("bin", "+", S("calls="), V("n")))]
+                out.append({"stmts": stmts, "labels": ["logic-literal:%s:%s" % (fname, pname)], "nt": True})
+    return out
+
+
 def enumerated(tier, seed):
     from .. import skeletons
-    cases = naming_cases()
+    cases = naming_cases() + logic_literal_cases()
     for desc, stmts in skeletons.all_skeletons(2 if tier == "quick" else 3):
         labels = ["skel:loop=" + desc["loop"], "skel:exit=" + desc["exit"] + ("@%d" % len(desc["wraps"])),
                   "skel:" + ("fn" if desc["in_fn"] else "module")]
